@@ -57,7 +57,7 @@ def register_mul(add0):
 
     def low(f, decls, call, shapes):
         for sh, mac, fixed in shapes:
-            add0('%s.%s@w8' % (f, sh), ['C01', 'C08'], f, sources=[MUL], headers=['bn_mul.h'], defines=['VC_LSHAPE=' + mac, 'VC_COMBA_MAX=6'] + (['VC_FIXED_DIGBUF'] if fixed else []),
+            add0('%s.%s@w8' % (f, sh), ['C01', 'C08'], f, sources=[MUL], headers=['bn_mul.h'], defines=['VC_LSHAPE=' + mac, 'VC_COMBA_MAX=' + __import__('os').environ.get('VERIF_COMBA_MAX', '6')] + (['VC_FIXED_DIGBUF'] if fixed else []),
                  decls=decls, call=call, route='bounded', unwind=N, conf='w8', timeout=600,
                  bound_note='size <= RLC_BN_SIZE symbolic, loops unwound %d times; digit product uninterpreted' % N,
                  note='RLC_MUL_DIG abstracted by uninterpreted mulhi/mullo with the range assumption PROD <= (B-1)^2')
